@@ -28,7 +28,7 @@ class Session:
 
     # ---------------------------------------------------------------- models
     def model(self, module, params=None, cfg=None, workers=8, timeout=1500, expect_violation=None,
-              simulate=None, on_line=None, heap="6g", label=None):
+              simulate=None, on_line=None, heap="6g", label=None, raw_replay=None):
         """Run one TLC model.  params: (module name, [(name, tla text)]).  Returns TLC result.
         A counterexample in a model that must hold is a machinery failure (ToolError) - a
         model is never reported as a violation of the code."""
@@ -40,7 +40,7 @@ class Session:
             if os.path.exists(p):
                 os.remove(p)
         r = C.run_tlc(self.wd, module, cfg=cfg, workers=workers, timeout=timeout, simulate=simulate,
-                      on_line=on_line, heap=heap)
+                      on_line=on_line, heap=heap, raw_replay=raw_replay)
         entry = {"module": label or module, "states": r["distinct"], "transitions": r["states"],
                  "wall_s": round(r["wall"], 1), "result": "ok" if r["ok"] else ("violated:%s" % r["violated"])}
         if expect_violation:
